@@ -112,6 +112,54 @@ fn gen_nest(rng: &mut Rng, idx: usize, prev_funcs: &[String]) -> (String, Vec<St
     (text, funcs)
 }
 
+/// (failing program, follow-up evaluated later on the same module): after the failure the object
+/// involved is repaired / the function is called properly, and the result must be what a fresh
+/// equal object gives. State that a failed operation leaves behind outside the evaluator
+/// (thread-local guards, caches keyed by the object) shows up here.
+const RETRY_PAIRS: &[(&str, &str)] = &[
+    (
+        "JX0 = [1, {\"k\": [2, len]}]\nemit(json.encode(JX0))",
+        "JX0[1][\"k\"].pop()\nexpect_eq(json.encode(JX0), json.encode([1, {\"k\": [2]}]), \"json after failed encode\")\nexpect_eq(json.encode(JX0[1]), \"{\\\"k\\\":[2]}\", \"json inner\")",
+    ),
+    (
+        "CY0 = [1]\nCY0.append(CY0)\nemit(json.encode(CY0))",
+        "CY0.pop()\nexpect_eq(json.encode(CY0), \"[1]\", \"json after cycle\")\nexpect_eq(repr(CY0), \"[1]\", \"repr after cycle\")",
+    ),
+    (
+        "JD0 = {\"a\": {1: 2}}\nemit(json.encode(JD0))",
+        "JD0[\"a\"] = {\"b\": 2}\nexpect_eq(json.encode(JD0), json.encode({\"a\": {\"b\": 2}}), \"json after bad key\")",
+    ),
+    (
+        "JS0 = struct(a = [1, lambda: 1])\nemit(json.encode(JS0))",
+        "expect_eq(json.encode(JS0.a[:1]), \"[1]\", \"json slice after failed struct\")\nexpect_eq(repr(JS0.a[0]), \"1\", \"repr\")",
+    ),
+    (
+        "SX0 = [3, 1, 2]\nemit(sorted(SX0, key = lambda x: 1 // 0))",
+        "SX0.append(0)\nexpect_eq(sorted(SX0), [0, 1, 2, 3], \"sorted after failing key\")\nexpect_eq(SX0, [3, 1, 2, 0], \"list after failing key\")",
+    ),
+    (
+        "def ty0(x: int) -> int:\n    return x + 1\nemit(ty0(\"s\"))",
+        "expect_eq(ty0(3), 4, \"typed def after a rejected call\")",
+    ),
+    (
+        "def rc0(n):\n    return 0 if n == 0 else 1 + rc0(n - 1)\nemit(rc0(100000))",
+        "expect_eq(rc0(30), 30, \"recursion after overflow\")",
+    ),
+    (
+        "PX0 = {\"a\": [1]}\ndef px_f(d):\n    for k in d:\n        fail(\"in loop\")\npx_f(PX0)",
+        "PX0[\"b\"] = 2\nexpect_eq(PX0, {\"a\": [1], \"b\": 2}, \"dict after a failed loop\")",
+    ),
+    (
+        "FX0 = \"{} {}\"\nemit(FX0.format(1))",
+        "expect_eq(FX0.format(1, 2), \"1 2\", \"format after failure\")\nexpect_eq(\"%s-%s\" % (1, 2), \"1-2\", \"percent\")",
+    ),
+];
+
+fn gen_retry(rng: &mut Rng, idx: usize) -> (String, String) {
+    let (a, b) = RETRY_PAIRS[rng.usize(RETRY_PAIRS.len())];
+    (format!("emit(\"retry-fail {idx}\")\n{a}\n"), format!("emit(\"retry {idx}\")\n{b}\n"))
+}
+
 fn gen_natural(rng: &mut Rng, idx: usize) -> String {
     let stmts = [
         "emit([1, 2][5])",
@@ -162,7 +210,25 @@ fn gen_natural(rng: &mut Rng, idx: usize) -> String {
         "emit(1 % 0)",
         "emit(1.0 // 0)",
         "emit(int(1e400))",
+        // Type annotations: the failing check is the implicit `return None` at the end of a body
+        // (also an empty one), a parameter or a default value.
+        "def tq0() -> str:\n    pass\nemit(tq0())",
+        "def tq1(x: int) -> int:\n    if x > 5:\n        return 1\nemit(tq1(1))",
+        "def tq2(x: str):\n    return x\nemit(tq2(5))",
+        "def tq3(x, y: list[int] = 3):\n    return y\nemit(tq3(1))",
+        "def tq4(*, k: str = \"a\") -> list[str]:\n    return [k, 1]\nemit(tq4())",
+        "tq5 = lambda x: x.nope\nemit(tq5(1))",
+        "emit(f\"{undefined_in_fstring_zz}\")",
+        "load(\"lib\", \"lib_typed\")\nemit(lib_typed(1))",
+        "load(\"lib\", \"lib_typed_empty\")\nemit(lib_typed_empty())",
+        "emit(tqe_last())",
+        "emit([tqe_last() for _ in range(2)])",
     ];
+    if rng.chance(1, 9) {
+        // The text ends - without a newline - in a typed def whose body falls off its end; a later
+        // evaluation on the same module calls it (`tqe_last` above).
+        return format!("emit(\"natural {idx}\")\ndef tqe_last() -> str:\n    zq_e = {idx}");
+    }
     let s = stmts[rng.usize(stmts.len())];
     format!("emit(\"natural {idx}\")\n{s}\nemit(\"after natural\")\n")
 }
@@ -280,6 +346,9 @@ fn run_step<'v>(eval: &mut Evaluator<'v, '_, '_>, module: &Module<'v>, step: &Js
     let cs = eval.call_stack_count();
     if cs != 0 {
         problems.push(("callstack-not-empty".to_owned(), format!("call_stack_count() == {cs} after evaluation {idx}")));
+    }
+    for p in kit::ctx(|c| std::mem::take(&mut c.problems)) {
+        problems.push(("state-after-failure".to_owned(), format!("evaluation {idx}: {p}")));
     }
     let transcript = kit::ctx(|c| c.transcript[before..].to_vec());
     EvalRec { ok, transcript, err_text, problems }
@@ -627,7 +696,8 @@ impl World for C07 {
             let (t, f) = gen_nest(&mut wl, 77, &[]);
             // Drop the top-level calls of the generated nest: the library only defines.
             let t: String = t.lines().filter(|l| !l.starts_with("emit(") && !l.starts_with("for t in") && !l.starts_with("    emit(")).map(|l| format!("{l}\n")).collect();
-            (format!("S = {{\"n\": 0, \"log\": []}}\n{t}"), f)
+            // The library text ends without a newline, in a typed def that falls off its end.
+            (format!("S = {{\"n\": 0, \"log\": []}}\n{t}def lib_typed_empty() -> str:\n    pass\ndef lib_typed(x) -> str:\n    y = x"), f)
         };
         for i in 0..n {
             let r = wl.below(10);
@@ -635,7 +705,13 @@ impl World for C07 {
                 let f = funcs[wl.usize(funcs.len())].clone();
                 steps.push(json!({"kind": "function", "func": f, "arg": wl.range(0, 3)}));
             } else if i > 0 && r < 4 {
-                steps.push(json!({"kind": "module", "text": gen_natural(&mut wl, i)}));
+                if wl.chance(1, 3) {
+                    let (a, b) = gen_retry(&mut wl, i);
+                    steps.push(json!({"kind": "module", "text": a}));
+                    steps.push(json!({"kind": "module", "text": b}));
+                } else {
+                    steps.push(json!({"kind": "module", "text": gen_natural(&mut wl, i)}));
+                }
             } else if i > 0 && (r < 6 || mode == 0) {
                 steps.push(json!({"kind": "module", "text": gen_illtyped(&mut wl, i)}));
             } else {
